@@ -52,7 +52,12 @@ func tallyImplO(yes, no, abstain, veto, other, actors uint64) string {
 	add(abstain, govtypes.OptionAbstain)
 	add(veto, govtypes.OptionNoWithVeto)
 	add(other, govtypes.VoteOption(9))
-	return resName(govtypes.CalculateVotes(votes, actors).ProcessResult())
+	out := "panic"
+	func() {
+		defer func() { recover() }()
+		out = resName(govtypes.CalculateVotes(votes, actors).ProcessResult())
+	}()
+	return out
 }
 
 func exactTally(yes, no, abstain, veto, actors uint64) string {
@@ -86,6 +91,9 @@ func runC08(r *Rec) {
 				for v := uint64(0); v <= maxSmall-y-n-a; v++ {
 					for ac := uint64(0); ac <= maxSmall+1; ac++ {
 						got := tallyImpl(y, n, a, v, ac)
+						if got == "panic" {
+							r.Fail("C08/tally/panic", fmt.Sprintf("ProcessResult panics for yes=%d no=%d abstain=%d veto=%d actors=%d (the gov EndBlocker does not recover: chain halt)", y, n, a, v, ac), nil)
+						}
 						r.Op(fmt.Sprintf("gov tally %d %d %d %d %d %d", y, n, a, v, ac, y+n+a+v), got)
 						r.Case(fmt.Sprintf("tally/%d/%d/%d/%d/%d", y, n, a, v, ac), y+n+a+v > 0)
 						if want := exactTally(y, n, a, v, ac); got == "passed" && want != "passed" {
